@@ -564,7 +564,7 @@ class CountSGD(torch.optim.SGD):
     def zero_grad(self, *a, **k): CountSGD.zeros += 1; return super().zero_grad(*a, **k)
 for k in (0, 1, 3):
     for validation in (True, False):
-        for pre_grad in (False, True):
+        for pre_grad in (False, True, "eval"):
             CountSGD.steps = 0
             torch.manual_seed(11)
             d = EuropeanOption(BrownianStock(dt=0.01), maturity=0.04)
@@ -572,7 +572,9 @@ for k in (0, 1, 3):
             ref_model = copy.deepcopy(model)
             crit = Crit()
             hedger = pnn.Hedger(model, ["log_moneyness", "time_to_maturity"], criterion=crit)
-            if pre_grad:
+            if pre_grad == "eval":
+                hedger.eval()                                      # the hedger was last used for evaluation
+            elif pre_grad:
                 hedger.compute_loss(d, n_paths=5).backward()       # a stale gradient from earlier use
                 crit.calls.clear()
             opt = CountSGD(model.parameters(), lr=0.1)
@@ -593,6 +595,29 @@ for k in (0, 1, 3):
                     ref.eval(); ref.compute_loss(d, n_paths=7, n_times=2, enable_grad=False)
             for a, b in zip(model.parameters(), ref_model.parameters()):
                 if not torch.allclose(a, b, atol=1e-7): bad.append((k, validation, pre_grad, "parameters differ from the explicit loop"))
+# parameters that the supplied optimiser owns but that live outside hedger.model: a parametric criterion (OCE) and the module of a ModuleOutput feature
+from pfhedge.features import ModuleOutput
+for validation in (False, True):
+    torch.manual_seed(21)
+    d = EuropeanOption(BrownianStock(dt=0.01), maturity=0.04)
+    from pfhedge.nn.modules.loss import OCE
+    mods = [torch.nn.Linear(2, 1), torch.nn.Linear(1, 1), OCE(lambda x: 1 - torch.exp(-x))]
+    refs = copy.deepcopy(mods)
+    def build(ms):
+        h = pnn.Hedger(ms[0], [ModuleOutput(ms[1], inputs=["log_moneyness"]), "time_to_maturity"], criterion=ms[2])
+        return h, torch.optim.SGD([q for m_ in ms for q in m_.parameters()], lr=0.1)
+    hedger, opt = build(mods)
+    torch.manual_seed(22)
+    hedger.fit(d, n_epochs=3, n_paths=7, optimizer=opt, verbose=False, validation=validation)
+    ref, ropt = build(refs)
+    torch.manual_seed(22)
+    for _ in range(3):
+        ref.train(); ropt.zero_grad(); ref.compute_loss(d, n_paths=7).backward(); ropt.step()
+        if validation:
+            ref.eval(); ref.compute_loss(d, n_paths=7, enable_grad=False)
+    for nm, m_, r_ in zip(("model", "feature module", "criterion"), mods, refs):
+        for a, b in zip(m_.parameters(), r_.parameters()):
+            if not torch.allclose(a, b, atol=1e-7): bad.append(("optimiser owns parameters outside the model", validation, nm + " parameters differ from the explicit loop (gradients accumulated across epochs?)"))
 result = {"got": [str(b) for b in bad][:10], "ref": []}
 '''
 
@@ -600,7 +625,7 @@ result = {"got": [str(b) for b in bad][:10], "ref": []}
 def _replay_fit():
     r = real_exec(FIT_REPLAY, {}, timeout=600)
     ok = r.get('ok') and r['result']['got'] == []
-    return {'real': r, 'confirmed': not ok, 'note': 'replay: real fit (k in {0,1,3}, validation on/off, with/without a stale gradient) against an explicit simulate/loss/backward/step loop under the same seed; step counts, modes, history'}
+    return {'real': r, 'confirmed': not ok, 'note': 'replay: real fit (k in {0,1,3}, validation on/off, with/without a stale gradient, hedger left in eval mode, optimiser owning parameters outside the model) against an explicit simulate/loss/backward/step loop under the same seed; step counts, modes, history'}
 
 
 def ensemble_mean_ob():
